@@ -48,7 +48,18 @@ CALL_FORMS = [
     ('<i tal:condition="level &lt; last" tal:content="structure «%s»">c</i>', "content"),
     ('<u tal:condition="level &lt; last">\n   ${structure: «%s»}</u>', "interp"),
 ]
-CALL_EXPR = "plan[level + 1](plan=plan, level=level + 1, last=last, boom=boom)"
+CALL_EXPR = "plan[level + 1](plan=plan, level=level + 1, last=last, boom=boom, via=via)"
+# the same call made through a helper of the application that looks at the exception (logs str(exc)) and re-raises it
+CALL_EXPR_VIA = "via(plan[level + 1], plan=plan, level=level + 1, last=last, boom=boom, via=via)"
+
+
+def _via(t, **kw):
+    try:
+        return t(**kw)
+    except BaseException as e:   # noqa
+        str(e)
+        repr(e)
+        raise
 
 
 def _nested_templates(rnd, n):
@@ -56,8 +67,9 @@ def _nested_templates(rnd, n):
     for t in range(n):
         form, _ = rnd.choice(CALL_FORMS)
         pad = "\n" * rnd.randint(0, 2) + " " * rnd.randint(0, 3)
+        cexpr = CALL_EXPR if rnd.random() < 0.5 else CALL_EXPR_VIA
         pat = "<div>%s<p>t%d ${level}</p>\n  %s\n <b tal:condition=\"level == last\">%s${«boom()»}</b>\n</div>" % (
-            pad, t, form % CALL_EXPR, " " * rnd.randint(0, 2))
+            pad, t, form % cexpr, " " * rnd.randint(0, 2))
         src = pat.replace("«", "").replace("»", "")
         # offsets of the two marked expressions
         offs = []
@@ -69,7 +81,7 @@ def _nested_templates(rnd, n):
                 clean += ch
         assert clean == src
         srcs.append(src)
-        marks.append(dict(call=offs[0], fail=offs[1]))
+        marks.append(dict(call=offs[0], fail=offs[1], cexpr=cexpr))
     return srcs, marks
 
 
@@ -88,7 +100,7 @@ def nested_render_part(ctx, rnd, quick):
     classes = ["ZeroDivisionError", "KeyError", "Custom2", "RecursionError", "KeyboardInterrupt"]
     plans = [(0,), (0, 0), (0, 1), (0, 0, 0), (0, 1, 0), (0, 1, 1), (0, 0, 0, 0), (0, 1, 2, 1), (1, 0, 0, 1, 1)]
     n = bad = 0
-    for rep in range(2 if quick else 12):
+    for rep in range(4 if quick else 16):
         srcs, marks = _nested_templates(rnd, 3)
         tmpls = [PageTemplate(s) for s in srcs]
         for plan in plans:
@@ -99,13 +111,13 @@ def nested_render_part(ctx, rnd, quick):
                     raise orig
                 err = None
                 try:
-                    tmpls[plan[0]](plan=[tmpls[i] for i in plan], level=0, last=len(plan) - 1, boom=boom)
+                    tmpls[plan[0]](plan=[tmpls[i] for i in plan], level=0, last=len(plan) - 1, boom=boom, via=_via)
                 except BaseException as e:   # noqa
                     err = e
                 n += 1
                 why = None
                 want = [("boom()",) + _linecol(srcs[plan[-1]], marks[plan[-1]]["fail"])] + \
-                       [(html_unescape(CALL_EXPR),) + _linecol(srcs[i], marks[i]["call"]) for i in reversed(plan[:-1])]
+                       [(html_unescape(marks[i]["cexpr"]),) + _linecol(srcs[i], marks[i]["call"]) for i in reversed(plan[:-1])]
                 if err is None:
                     why = "no exception"
                 elif not isinstance(err, type(orig)):
